@@ -492,3 +492,89 @@ theorem filter_ne_length_le (l : List Nat) (f : Nat) : (l.filter (· != f)).leng
   List.length_filter_le _ _
 
 end ALock
+
+namespace ALock
+
+/-! ### "notify everybody" -/
+
+def AllNotified (q : List Entry) : Prop := ∀ e ∈ q, e.notified = true
+
+theorem notifyQ_all (add : Bool) (n : Nat) (q : List Entry) (h : q.length ≤ n) :
+    AllNotified (notifyQ add n q) := by
+  induction q generalizing n with
+  | nil => intro e he; cases n <;> simp [notifyQ] at he
+  | cons a t ih =>
+    cases n with
+    | zero => simp at h
+    | succ n =>
+      simp only [List.length_cons] at h
+      intro e he
+      by_cases ha : a.notified = true
+      · simp only [notifyQ, ha, if_true, List.mem_cons] at he
+        rcases he with rfl | he
+        · exact ha
+        · exact ih (n+1) (by omega) e he
+      · have ha' : a.notified = false := by simpa using ha
+        simp only [notifyQ, ha', Bool.false_eq_true, if_false, List.mem_cons] at he
+        rcases he with rfl | he
+        · rfl
+        · exact ih n (by omega) e he
+
+theorem Ev.notify_all (q : List Entry) : AllNotified (Ev.notify true q.length q) := by
+  unfold Ev.notify notifyK
+  simp only [if_true]
+  exact notifyQ_all true _ q (Nat.le_refl _)
+
+theorem notifyQ_allNotified (add : Bool) (n : Nat) (q : List Entry) (h : AllNotified q) :
+    AllNotified (notifyQ add n q) := by
+  fun_induction notifyQ add n q <;> simp_all [AllNotified]
+
+theorem Ev.notify_allNotified (add : Bool) (n : Nat) (q : List Entry) (h : AllNotified q) :
+    AllNotified (Ev.notify add n q) := notifyQ_allNotified _ _ _ h
+
+theorem Ev.erase_allNotified {q : List Entry} (f : Nat) (h : AllNotified q) :
+    AllNotified (Ev.erase q f) := fun e he => h e (Ev.mem_erase.mp he).1
+
+theorem Ev.setTask_allNotified {q : List Entry} (f t : Nat) (h : AllNotified q) :
+    AllNotified (Ev.setTask q f t) := by
+  intro e he
+  simp only [Ev.setTask, List.mem_map] at he
+  obtain ⟨e0, he0, rfl⟩ := he
+  have := h e0 he0
+  split <;> simp [this]
+
+theorem Ev.drop_allNotified {q : List Entry} (f : Nat) (h : AllNotified q) :
+    AllNotified (Ev.drop q f) := by
+  unfold Ev.drop; split
+  · exact Ev.notify_allNotified _ _ _ (Ev.erase_allNotified f h)
+  · exact Ev.erase_allNotified f h
+
+theorem allNotified_isNotified {q : List Entry} {f : Nat} (h : AllNotified q) (hh : Ev.has q f = true) :
+    Ev.isNotified q f = true := by
+  obtain ⟨e, he, ho⟩ := Ev.has_iff.mp hh
+  exact Ev.isNotified_iff.mpr ⟨e, he, ho, h e he⟩
+
+theorem wakeOK_cons_of_except {f : Nat} {q : List Entry} {w : List Nat} (h : WakeOKExcept f q w) :
+    WakeOK q (f :: w) := by
+  intro e he hn
+  by_cases hf : e.owner = f
+  · simp [hf]
+  · exact List.mem_cons_of_mem _ (h e he hn hf)
+
+
+end ALock
+
+namespace ALock
+
+theorem notifyQ_cnt_of_zero (add : Bool) (q : List Entry) : cnt (notifyQ add 0 q) = cnt q := by
+  simp [notifyQ]
+
+theorem Ev.cnt_drop_pos {q : List Entry} {f : Nat} (h : 0 < cnt (Ev.drop q f)) : 0 < cnt q := by
+  unfold Ev.drop at h
+  split at h
+  · rename_i hn
+    obtain ⟨e, he, _, hne⟩ := Ev.isNotified_iff.mp hn
+    exact (cnt_pos_iff _).mpr ⟨e, he, hne⟩
+  · exact Nat.lt_of_lt_of_le h (Ev.cnt_erase_le q f)
+
+end ALock
